@@ -233,11 +233,13 @@ pub fn self_test() -> Result<(), String> {
         &sha1(b"abcdbcdecdefdefgefghfghighijhijkijkljklmklmnlmnomnopnopq"),
         "84983e441c3bd26ebaae4aa1f95129e5e54670f1",
     )?;
-    chk(
-        "sha1(1M a)",
-        &sha1(&vec![b'a'; 1_000_000]),
-        "34aa973cd4c4daa4f61eeb2bdbad27316534016f",
-    )?;
+    if !cfg!(miri) {
+        chk(
+            "sha1(1M a)",
+            &sha1(&vec![b'a'; 1_000_000]),
+            "34aa973cd4c4daa4f61eeb2bdbad27316534016f",
+        )?;
+    }
     // RFC 6234
     chk(
         "sha256(abc)",
